@@ -28,6 +28,8 @@ def run(ctx):
     ctx.guarded('R07c', 'decoders', lambda: r07c(ctx))
     ctx.guarded('R07d', CO + 'CasObject::serialize', lambda: r07d(ctx))
     ctx.guarded('R07e', CF + 'serialize_chunk', lambda: r07e(ctx))
+    ctx.rule('R07f', 'a loop that fills a buffer with several partial reads (the byte count of each read is added to a cursor) reads into the unread tail buf[cursor..]: otherwise a header delivered in two pieces is overwritten and the stream position is lost (the stream decoder then differs from the sync decoder)')
+    ctx.guarded('R07f', 'fill loops', lambda: fill_loops(ctx, 'R07f'))
 
 
 def norm_tokens(a, direction):
@@ -264,11 +266,7 @@ def r07c(ctx):
     ctx.check(len(wr) == 1 and dec and a.rooted_at(a.arg(wr[0], 1), dec[0]), 'R07c', a.path, 'writes decompressed', '-', 'the async decoder writes exactly the decompressed bytes')
     # header readers validate
     for nm in (CF + 'parse_chunk_header', CF + 'deserialize_async::deserialize_chunk_header::{closure#0}'):
-        h = an(F.body(nm))
-        vs = h.calls('cas_object::cas_chunk_format::CASChunkHeader::validate')
-        oks = [(b, si) for (b, si, k, e) in h.ret_sites() if k != 'err']
-        se = [e for v in vs for e in success_edges(h, v)]
-        ctx.check(len(vs) == 1 and bool(se) and all(h.cfg.must_pass(b, via_edges=se) for (b, si) in oks), 'R07c', nm, 'validate', '-', 'the header reader returns only validated headers')
+        ctx.check(returns_validated_headers(F, nm), 'R07c', nm, 'validate', '-', 'the header reader returns only validated headers')
     dh = an(F.body(CF + 'deserialize_chunk_header'))
     ctx.check(len(dh.calls(CF + 'parse_chunk_header')) == 1, 'R07c', dh.path, 'uses parse', '-', 'the sync header reader goes through parse_chunk_header')
     # multi-chunk decoders
@@ -406,3 +404,70 @@ def r07e(ctx):
     oks = [e for (_, _, k, e) in a.ret_sites() if k == 'ok']
     ok3 = len(oks) == 1 and oks[0][3][0][1][0] == 'bin' and flow.const_eval(oks[0][3][0][1][2]) == 8 and tup_base(oks[0][3][0][1][3]) == b2
     ctx.check(ok3, 'R07e', fn, 'ret', '-', 'serialize_chunk returns 8 + len(bytes written)')
+
+
+def returns_validated_headers(F, nm, depth=0):
+    """every non-error return of the header reader `nm` is dominated by the success edge of CASChunkHeader::validate, or
+    hands on the result of a header reader of which that holds (parse_chunk_header), directly or through `?`"""
+    h = an(F.body(nm))
+    vs = h.calls('cas_object::cas_chunk_format::CASChunkHeader::validate')
+    se = [e for v in vs for e in success_edges(h, v)]
+    helpers = [c for c in h.calls(CF + 'parse_chunk_header')] if depth == 0 and not nm.endswith('::parse_chunk_header') else []
+    if helpers and not returns_validated_headers(F, CF + 'parse_chunk_header', 1):
+        helpers = []
+    hse = [e for c in helpers for e in success_edges(h, c)]
+    oks = [(b, si, k, e) for (b, si, k, e) in h.ret_sites() if k != 'err']
+    if not oks:
+        return False
+    for (b, si, k, e) in oks:
+        if k == 'other' and any(h.err_rooted_at(e, c) for c in helpers):
+            continue            # tail call: Ok only if the helper validated
+        if se and h.cfg.must_pass(b, via_edges=se) and len(vs) == 1:
+            continue
+        if k == 'ok' and hse and h.cfg.must_pass(b, via_edges=hse) and any(h.rooted_at(x[1], c) for x in e[3] for c in helpers):
+            continue
+        return False
+    return True
+
+
+READS = ('tokio::io::util::async_read_ext::AsyncReadExt::read', 'std::io::Read::read', 'futures_util::io::AsyncReadExt::read')
+
+
+def fill_loops(ctx, rid, floor=1):
+    """C07c: `while n < LEN { let r = reader.read(&mut buf).await?; n += r }`"""
+    F = ctx.F
+    found = 0
+    for p, b in sorted(F.bodies.items()):
+        if b['crate'] != 'cas_object' or '::tests::' in p or '::test_' in p:
+            continue
+        a = an(b)
+        for c in a.calls(*READS):
+            lp = c05.loop_of(a, c)
+            if lp is None:
+                continue
+            # cursor: a local with a definition `cur = cur + <rooted at this read>` inside the loop
+            curs = []
+            for bb in sorted(lp[1]):
+                for si, st in enumerate(a.blocks[bb]['s']):
+                    d, r = st.get('d'), st.get('r')
+                    if not d or 'p' in d or not r:
+                        continue
+                    e = a.flow.rvalue(r, 0)
+                    if e[0] == 'field' and e[1][0] == 'bin':
+                        e = e[1]
+                    if e[0] == 'bin' and e[1] in ('Add', 'AddO') and any(a.err_rooted_at(x, c) for x in (e[2], e[3])):
+                        other = e[3] if a.err_rooted_at(e[2], c) else e[2]
+                        curs.append((d['l'], other, bb, si))
+            if not curs:
+                continue
+            found += 1
+            buf = a.arg(c, 1)
+            ok = False
+            for z in flow.subtrees(buf):
+                if z[0] == 'index' and z[2][0] == 'agg' and z[2][2].endswith('RangeFrom'):
+                    st_ = dict(z[2][3]).get('start')
+                    if st_ is not None and any(flow.eqv(st_, o) or (st_[0] == 'local' and o[0] == 'local' and a.flow.lname(st_[1]) == a.flow.lname(o[1]) and a.flow.lname(o[1])) for (_, o, _, _) in curs):
+                        ok = True
+            ctx.check(ok, rid, p, 'fill loop', a.loc(c), 'each partial read goes into the unread tail buf[cursor..] of the buffer being filled',
+                      'the loop adds the byte count of every read to a cursor but always reads into %s: a second partial read overwrites the first and more bytes are consumed from the stream than are kept' % flow.show(buf)[:50])
+    ctx.floor(rid, 'buffer-filling read loops in cas_object', found, floor)
